@@ -6,7 +6,9 @@ import (
 	"flag"
 	"fmt"
 	"math/rand"
+	"os"
 	"path/filepath"
+	"runtime/debug"
 	"strings"
 	"time"
 
@@ -81,9 +83,16 @@ func totalCase(idx int, schemaText, instText []byte, reg strfmt.Registry) (enc.M
 	labels := []interface{}{}
 	for _, carrier := range []string{"float64", "jsonNumber"} {
 		for oi, opts := range optionCombos {
-			for _, entry := range []string{"oneshot", "validator"} {
-				if entry == "oneshot" && oi&4 != 0 {
+			for _, entry := range []string{"oneshot", "validator", "oneshot-nilregistry", "validator-nilregistry"} {
+				if strings.HasPrefix(entry, "oneshot") && oi&4 != 0 {
 					continue // AgainstSchema always recycles: the flag adds nothing
+				}
+				reg := reg
+				if strings.HasSuffix(entry, "-nilregistry") {
+					if oi != 0 && oi != 4 {
+						continue // without a format registry (a nil interface is a legal argument): default options only
+					}
+					reg = nil
 				}
 				out := ""
 				st, pv := guarded(5*time.Second, func() {
@@ -100,7 +109,7 @@ func totalCase(idx int, schemaText, instText []byte, reg strfmt.Registry) (enc.M
 						d.UseNumber()
 						_ = d.Decode(&data)
 					}
-					if entry == "oneshot" {
+					if strings.HasPrefix(entry, "oneshot") {
 						if validate.AgainstSchema(&s, data, reg, opts...) == nil {
 							out = "valid"
 						} else {
@@ -143,7 +152,17 @@ func driveTotal(args []string) error {
 	n := fs.Int("n", 300, "random schemas / cap on table pairs (0 = all)")
 	out := fs.String("out", "", "output directory")
 	chunk := fs.Int("chunk", 3000, "events per chunk")
+	crashed := fs.String("crashed", "", "comma separated <pair number>:<how> of pairs that killed (or hung) an earlier attempt of this run: reported, not run again")
 	fs.Parse(args)
+	crashedHow := map[string]string{}
+	for _, c := range strings.Split(*crashed, ",") {
+		if parts := strings.Split(c, ":"); len(parts) == 2 {
+			crashedHow[parts[0]] = parts[1]
+		}
+	}
+	debug.SetMaxStack(192 << 20)
+	_ = os.MkdirAll(*out, 0o755)
+	pairNo := 0
 	reg := strfmt.Default
 	w := newChunkWriter(*out, *chunk)
 	defer w.close()
@@ -152,7 +171,26 @@ func driveTotal(args []string) error {
 	var samples []interface{}
 	runs := 0
 	emit := func(st, it []byte) error {
-		ev, ok := totalCase(w.n+1, st, it, reg)
+		// same protocol as drive-spec: the pair is noted before it runs; a pair that hangs ends the process at once (an
+		// abandoned goroutine may end it at any later point), a pair that ends it with a fatal error is found noted
+		pairNo++
+		var ev enc.M
+		ok := true
+		if how, dead := crashedHow[fmt.Sprint(pairNo)]; dead {
+			ev = enc.M{"ev": "total", "n": w.n + 1, "refs": []interface{}{}, "dk": []interface{}{}, "outs": []interface{}{how}, "labels": []interface{}{"the driver process (earlier attempt)"}}
+		} else {
+			_ = os.WriteFile(filepath.Join(*out, "current.txt"), []byte(fmt.Sprint(pairNo)), 0o644)
+			ev, ok = totalCase(w.n+1, st, it, reg)
+			if ok {
+				for _, o := range ev["outs"].([]interface{}) {
+					if o == "hang" {
+						w.close()
+						_ = os.WriteFile(filepath.Join(*out, "current.txt"), []byte(fmt.Sprintf("%d:hang", pairNo)), 0o644)
+						os.Exit(5)
+					}
+				}
+			}
+		}
 		if !ok {
 			return nil
 		}
